@@ -236,49 +236,113 @@ def describe(t):
 
 
 def check_fill_in(ctx):
+    """elimination game on ONE working graph: the neighbours of the eliminated node are read from the graph that receives the
+    fill-in edges, and the node then leaves the game (removed from the graph, or recorded in a set the neighbour query filters by).
+    Stated on the expanded loop body (engines/blockeval.py)."""
+    from ..engines.builders import Builder, method_calls, strip_wrappers
+    from ..engines.blockeval import BlockEval, T
+    from ..normalise import single_exit
+    from ..srcmodel import clone
     fi = ctx.repo.nfunc(JT, 'JunctionTree._triangulated')
     ctx.analysed(fi)
-    loops = [s for s in fi.body if isinstance(s, ast.For) and isinstance(s.target, ast.Name)]
+    order = fi.params[1]
+    stmts, _ = single_exit(clone(fi.body), '__ret__')
+    be = BlockEval(fi.qualname, loop_ok=lambda s_: True)
+    be.run(stmts)
+    loops = [l for l in be.loops_done if isinstance(l[0], ast.For) and isinstance(l[0].target, ast.Name)]
     if len(loops) != 1:
         raise AnalysisError('_triangulated: elimination loop not found')
-    loop = loops[0]
+    loop, entry, body_env, pc = loops[0]
     node = loop.target.id
-    order = fi.params[1]
-    ctx.ob('elimination-fill-in', fi, loop, U(loop.iter) == order, 'nodes are eliminated in the given order `%s`' % order)
-    # events in the loop body, in order
-    G = None
-    nb_stmt = add_idx = rm_idx = nb_idx = None
-    nb_var = None
-    for idx, s in enumerate(loop.body):
-        for c in calls_in(s):
-            f = c.func
-            if isinstance(f, ast.Attribute) and f.attr == 'neighbors' and len(c.args) == 1 and U(c.args[0]) == node:
-                G = U(f.value)
-                nb_idx = idx
-                if isinstance(s, ast.Assign) and isinstance(s.targets[0], ast.Name):
-                    nb_var = s.targets[0].id
-                    nb_stmt = s
-    if G is None:
-        raise AnalysisError('_triangulated: neighbours of the eliminated node are never queried')
-    pairs_ok = nb_stmt is not None and any(U(c.func).endswith('combinations') and len(c.args) == 2 and U(c.args[1]) == '2'
-                                           for c in calls_in(nb_stmt))
-    for idx, s in enumerate(loop.body):
-        for c in calls_in(s):
-            f = c.func
-            if isinstance(f, ast.Attribute) and U(f.value) == G and f.attr == 'add_edges_from' and c.args and \
-                    (U(c.args[0]) == nb_var or 'neighbors(%s)' % node in U(c.args[0])):
-                add_idx = idx
-            if isinstance(f, ast.Attribute) and U(f.value) == G and f.attr == 'remove_node' and c.args and U(c.args[0]) == node:
-                rm_idx = idx
-    ok = pairs_ok and add_idx is not None and rm_idx is not None and nb_idx is not None and nb_idx <= add_idx < rm_idx
-    ctx.ob('elimination-fill-in', fi, nb_stmt or loop, ok,
-           'eliminating `%s`: all pairs of its neighbours in the working graph `%s` must be connected in `%s` itself before the node '
-           'is removed from it (found: pairs=%s, add_edges_from at step %s, remove_node at step %s)'
-           % (node, G, G, pairs_ok, add_idx, rm_idx))
-    # the working graph starts as a copy of the model graph and the result contains model edges + fill-in edges
-    init = [s for s in fi.body if isinstance(s, ast.Assign) and U(s.targets[0]) == G]
-    ok = bool(init) and U(init[0].value) in ('nx.Graph(self.graph)', 'self.graph.copy()')
-    ctx.ob('elimination-fill-in', fi, init[0] if init else fi.node, ok, 'the working graph must be a copy of the model graph (the original is needed afterwards)')
+    ctx.ob('elimination-fill-in', fi, loop, T(loop.iter) == order, 'nodes are eliminated in the given order `%s`' % order,
+           construct='elimination order')
+    adds = [(s_, c) for s_, c, pc_, lp in be.calls if lp and isinstance(c.func, ast.Attribute) and c.func.attr == 'add_edges_from' and c.args]
+    if not adds:
+        queried = [x for v in list(body_env.values()) + [c for s_, c, pc_, lp in be.calls if lp] for x in ast.walk(v)
+                   if isinstance(x, ast.Call) and isinstance(x.func, ast.Attribute) and x.func.attr == 'neighbors']
+        if queried:
+            ctx.ob('elimination-fill-in', fi, loop, False,
+                   'eliminating `%s`: the pairs of its neighbours are computed but never added to a graph inside the loop, so later '
+                   'eliminations do not see earlier fill-in edges' % node, construct='working graph of the elimination')
+            return
+    if len(adds) != 1:
+        raise AnalysisError('_triangulated: expected one add_edges_from inside the elimination loop, found %d' % len(adds))
+    add_stmt, add = adds[0]
+    Y = U(add.func.value)
+    pairs = strip_wrappers(add.args[0])
+    pairs_ok = isinstance(pairs, ast.Call) and U(pairs.func).endswith('combinations') and len(pairs.args) == 2 and T(pairs.args[1]) == '2'
+    X = elim = None
+    nb_ok = False
+    if pairs_ok:
+        nb = strip_wrappers(pairs.args[0])
+        b = Builder.of_comprehension(nb)
+        src = nb
+        if b is not None and len(b.gens) == 1 and isinstance(b.gens[0][0], ast.Name) and T(b.elt) == b.gens[0][0].id:
+            src = strip_wrappers(b.gens[0][1])
+            v = b.gens[0][0].id
+            if len(b.conds) == 1 and isinstance(b.conds[0], ast.Compare) and isinstance(b.conds[0].ops[0], ast.NotIn) \
+                    and T(b.conds[0].left) == v:
+                elim = T(b.conds[0].comparators[0])
+            elif b.conds:
+                src = None
+        if isinstance(src, ast.Call) and isinstance(src.func, ast.Attribute) and src.func.attr == 'neighbors' and len(src.args) == 1 \
+                and T(src.args[0]) == node:
+            X = U(src.func.value)
+            nb_ok = True
+    if not (pairs_ok and nb_ok):
+        raise AnalysisError('_triangulated: the fill-in edges are not combinations(<neighbours of the eliminated node>, 2): `%s`' % U(add)[:100])
+    ctx.ob('elimination-fill-in', fi, add_stmt, X == Y,
+           'eliminating `%s`: its neighbours must be read from the working graph that receives the fill-in edges (later eliminations '
+           'must see earlier fill-in); neighbours come from `%s`, edges go to `%s`' % (node, X, Y), construct='working graph of the elimination')
+    removed = [1 for s_, c, pc_, lp in be.calls if lp and isinstance(c.func, ast.Attribute) and c.func.attr == 'remove_node'
+               and U(c.func.value) == X and T(c.args[0]) == node]
+    recorded = [1 for s_, c, pc_, lp in be.calls if lp and isinstance(c.func, ast.Attribute) and c.func.attr == 'add'
+                and elim is not None and U(c.func.value) == elim and T(c.args[0]) == node]
+    init_elim = be.inits.get(elim) if elim else None
+    leaves = bool(removed) or (bool(recorded) and init_elim is not None and T(init_elim) in ('set()', '[]'))
+    # order: add before remove
+    idx = {id(s_): i for i, (s_, c, pc_, lp) in enumerate(be.calls)}
+    if removed:
+        i_add = [i for i, (s_, c, pc_, lp) in enumerate(be.calls) if c is add][0]
+        i_rm = [i for i, (s_, c, pc_, lp) in enumerate(be.calls) if lp and isinstance(c.func, ast.Attribute) and c.func.attr == 'remove_node'][0]
+        leaves = leaves and i_add < i_rm
+    ctx.ob('elimination-fill-in', fi, add_stmt, leaves,
+           'after its neighbours are connected the node must leave the game: removed from `%s` (after the edges are added) or recorded in the '
+           'set the neighbour query filters by' % X, construct='eliminated node leaves the working graph')
+    init = be.inits.get(X) or entry.get(X)
+    ok = init is not None and T(init) in ('nx.Graph(self.graph)', 'self.graph.copy()', 'networkx.Graph(self.graph)')
+    ctx.ob('elimination-fill-in', fi, fi.node, ok, 'the working graph must be a copy of the model graph (the original is needed afterwards); '
+           'it starts as `%s`' % (U(init) if init is not None else None), construct='working graph is a copy')
+    # the triangulated graph that is returned: model edges + every fill-in edge
+    R = be.env.get('__ret__')
+    tri = None
+    if isinstance(R, ast.Tuple) and R.elts:
+        tri = U(R.elts[0])
+    elif R is not None:
+        tri = U(R)
+    if tri is None:
+        raise AnalysisError('_triangulated: result not found')
+    if tri == X:
+        ok = not removed          # the working graph itself is returned: nothing may have been removed from it
+        how = 'the working graph itself (nodes are skipped, not removed)'
+    else:
+        t_init = be.inits.get(tri) or be.env.get(tri)
+        fills = [c for s_, c, pc_, lp in be.calls if not lp and isinstance(c.func, ast.Attribute) and c.func.attr == 'add_edges_from'
+                 and U(c.func.value) == tri]
+        acc_ok = False
+        for c in fills:
+            a0 = c.args[0]
+            if isinstance(a0, ast.Name):
+                # accumulated in the loop from the same pairs
+                grown_ = [e for e in be.events if e.name == a0.id] + \
+                         [1 for s_, c2, pc_, lp in be.calls if lp and isinstance(c2.func, ast.Attribute) and c2.func.attr in ('update',)
+                          and U(c2.func.value) == a0.id and T(strip_wrappers(c2.args[0])) == T(pairs)]
+                aug = T(body_env.get(a0.id)) in ('%s|%s' % (a0.id, T(add.args[0])), '%s|%s' % (a0.id, T(pairs)), '%s|set(%s)' % (a0.id, T(pairs)))
+                acc_ok = acc_ok or bool(grown_) or aug
+        ok = t_init is not None and T(t_init) in ('nx.Graph(self.graph)', 'self.graph.copy()') and acc_ok
+        how = '`%s`, a copy of the model graph plus the accumulated fill-in edges' % tri
+    ctx.ob('elimination-fill-in', fi, fi.node, ok, 'the triangulated graph returned must contain the model graph and every fill-in edge; returns %s' % how,
+           construct='triangulated graph')
 
 
 def check_tree_connected(ctx):
